@@ -644,6 +644,48 @@ func c02(p *core.Program, r *core.Report) {
 	}
 	lastNonEmptyScanRule(p, r, "previous-non-empty-scan", 1, "")
 
+	// ---- rule 5b: a part is reported empty only when it has no sub-parts
+	const r5b = "empty-part-by-structure"
+	r.Rule(r5b, "MultiPolygon.Polygon(i) hands back the ring-less NewPolygon(layout) only on CFG edges that imply len(g.endss[i]) == 0: a polygon that was pushed with rings but no coordinates (all rings empty) keeps its rings - deciding emptiness by the coordinate range instead (offset == end) returns a different geometry than the one pushed", 1)
+	if fn := mustFn(p, r, r5b, "", "(*MultiPolygon).Polygon"); fn != nil && len(fn.Params) == 2 {
+		// the row g.endss[i]
+		var row ssa.Value
+		for _, b := range fn.Blocks {
+			for _, in := range b.Instrs {
+				ld, ok := in.(*ssa.UnOp)
+				if !ok || ld.Op != token.MUL {
+					continue
+				}
+				ia, ok := ld.X.(*ssa.IndexAddr)
+				if !ok || ia.Index != ssa.Value(fn.Params[1]) {
+					continue
+				}
+				if base, path, okf := fieldLoad(ia.X); okf && base == ssa.Value(fn.Params[0]) && strings.HasSuffix(path, ".endss") && row == nil {
+					row = ld
+				}
+			}
+		}
+		n := 0
+		for _, c := range eng.Calls(fn) {
+			callee := eng.StaticCallee(c)
+			if callee == nil || callee.Name() != "NewPolygon" {
+				continue
+			}
+			n++
+			key := fmt.Sprintf("%s/NewPolygon#%d", short(fn), n)
+			if row == nil {
+				r.Bad(r5b, key, p.Pos(c.Pos()), "the empty polygon is returned but g.endss[i] is never consulted")
+				continue
+			}
+			empty := eng.EmptyEdges(fn, row)
+			okE := len(empty) > 0 && !eng.Reachable(fn.Blocks[0], empty)[c.Block()]
+			r.Check(okE, r5b, key, p.Pos(c.Pos()), true, "reached only when len(g.endss[i]) == 0", "the ring-less empty polygon is returned on a path that does not establish len(g.endss[i]) == 0: a pushed polygon whose rings are all empty comes back without its rings")
+		}
+		if n == 0 {
+			r.OK(r5b, short(fn)+"/no-empty-shortcut", p.Pos(fn.Pos()), true, "no ring-less shortcut: every part is rebuilt from its ends row")
+		}
+	}
+
 	// ---- rule 6: Push / SetCoords copy; only Swap and GeometryCollection.Push share storage, by design
 	const r6 = "parts-copied-not-shared"
 	r.Rule(r6, "MODREF capture query: after Push (Polygon, MultiPoint, MultiLineString, MultiPolygon) and SetCoords (all 7 types) no memory reachable from the receiver holds a reference to memory supplied through another argument - the part's coordinates and offsets are copied, so later pushes into or reversals of either geometry cannot show through the other; GeometryCollection.Push, which stores the pushed pointers by design, is the positive control that the query sees captures", 12)
